@@ -361,6 +361,7 @@ type extractor struct {
 	out    []mention
 	depth  int
 	seenFn map[*types.Func]bool
+	targets map[types.Object]string // rebuild targets: local := ir.T{...}
 }
 
 // rooted normalises an expression to a field path if it is rooted at a known object.
@@ -417,6 +418,33 @@ func (ex *extractor) rooted(e ast.Expr) (string, bool) {
 		}
 	}
 	return "", false
+}
+
+// targetField: l is local.F (or local.F.G) with local a rebuild target.
+func (ex *extractor) targetField(l ast.Expr) (string, string, bool) {
+	var parts []string
+	e := ast.Unparen(l)
+	for {
+		switch x := e.(type) {
+		case *ast.SelectorExpr:
+			parts = append([]string{x.Sel.Name}, parts...)
+			e = ast.Unparen(x.X)
+			continue
+		case *ast.StarExpr:
+			e = ast.Unparen(x.X)
+			continue
+		case *ast.Ident:
+			if len(parts) == 0 {
+				return "", "", false
+			}
+			if obj := ex.info.Uses[x]; obj != nil {
+				if t, ok := ex.targets[obj]; ok {
+					return t, strings.Join(parts, "."), true
+				}
+			}
+		}
+		return "", "", false
+	}
 }
 
 func normPath(p string) string { return strings.TrimPrefix(p, ".") }
@@ -505,6 +533,32 @@ func (ex *extractor) walkNode(n ast.Node) {
 				r = x.Rhs[i]
 			}
 			if x.Tok == token.DEFINE || x.Tok == token.ASSIGN {
+				// rebuild target: local := ir.T{...}  (later local.F = v counts as setting field F of a T literal)
+				if id, ok := l.(*ast.Ident); ok && r != nil {
+					rv := ast.Unparen(r)
+					if u, ok := rv.(*ast.UnaryExpr); ok && u.Op == token.AND {
+						rv = ast.Unparen(u.X)
+					}
+					if cl, ok := rv.(*ast.CompositeLit); ok {
+						if tv, ok := ex.info.Types[cl]; ok {
+							if nn := namedOf(tv.Type); nn != nil && nn.Obj().Pkg() != nil && relPkg(nn.Obj().Pkg().Path()) == "ir" {
+								var obj types.Object
+								if x.Tok == token.DEFINE {
+									obj = ex.info.Defs[id]
+								}
+								if obj == nil {
+									obj = ex.info.Uses[id]
+								}
+								if obj != nil {
+									if ex.targets == nil {
+										ex.targets = map[types.Object]string{}
+									}
+									ex.targets[obj] = nn.Obj().Name()
+								}
+							}
+						}
+					}
+				}
 				// alias definition: local := rooted
 				if id, ok := l.(*ast.Ident); ok && r != nil {
 					if p, ok := ex.rooted(r); ok {
@@ -525,7 +579,13 @@ func (ex *extractor) walkNode(n ast.Node) {
 					}
 				}
 			}
-			if p, ok := ex.rooted(l); ok && !isIdent(l) {
+			if tname, fpath, ok := ex.targetField(l); ok {
+				rv := r
+				if rv == nil && len(x.Rhs) == 1 {
+					rv = x.Rhs[0]
+				}
+				ex.addW("lit:"+tname+":"+fpath, "lit", l.Pos(), rv)
+			} else if p, ok := ex.rooted(l); ok && !isIdent(l) {
 				rv := r
 				if rv == nil && len(x.Rhs) == 1 {
 					rv = x.Rhs[0]
@@ -1169,7 +1229,8 @@ type handlewalkConfig struct {
 	Family     string
 }
 
-func (c *Ctx) runHandlewalk(r *Report, cfg handlewalkConfig) {
+func (c *Ctx) runHandlewalk(r *Report, cfg handlewalkConfig) map[*types.Func]string {
+	roles := map[*types.Func]string{}
 	sums := c.sumTypes("ir")
 	exc := map[string]string{}
 	for _, e := range cfg.Exceptions {
@@ -1239,7 +1300,7 @@ func (c *Ctx) runHandlewalk(r *Report, cfg handlewalkConfig) {
 				touched++
 			}
 		}
-		isRemapper := nRemapArms >= 2 || (nRemapArms >= 1 && len(carrying) <= 4)
+		isRemapper := cfg.Remappers && (nRemapArms >= 2 || (nRemapArms >= 1 && len(carrying) <= 4))
 		role := ""
 		switch {
 		case isRemapper && cfg.Remappers:
@@ -1254,6 +1315,9 @@ func (c *Ctx) runHandlewalk(r *Report, cfg handlewalkConfig) {
 			nRem++
 		} else {
 			nWalk++
+		}
+		if v.Func.Obj != nil {
+			roles[v.Func.Obj] = role
 		}
 		rule := cfg.Rule + "." + role
 		for _, cp := range carrying {
@@ -1311,6 +1375,7 @@ func (c *Ctx) runHandlewalk(r *Report, cfg handlewalkConfig) {
 	}
 	r.inst(cfg.Family+".remappers", nRem)
 	r.inst(cfg.Family+".walkers", nWalk)
+	return roles
 }
 
 // dumpVisitors prints the measured inventory (used while arming rules).
